@@ -100,6 +100,7 @@ class LoopRT:
         self.spec = SPECS.get((qual, ordinal))
         if self.spec is None:
             raise Undecided("no invariant given for loop %d of %s (symbolic bound)" % (ordinal, qual))
+        self.tag = "%s:loop%d" % (qual, ordinal)
         if isinstance(it, SymRange):
             self.start, self.n = it.start, it.length
             self.elem = lambda j: unwrap_int(j + it.start)
@@ -116,6 +117,10 @@ class LoopRT:
         for name, want in st0.items():
             have = _attr_get(self.env, name) if "." in name else self.env.get(name, UNBOUND)
             if have is UNBOUND:
+                if "." not in name and name not in self.names:
+                    # the sidecar invariant names a local that this version of the function does not have (renamed /
+                    # restructured code): the contract is out of date -> undecided, never a violation
+                    raise Undecided("invariant of %s refers to local '%s', which the function does not assign in this loop" % (self.tag, name))
                 c.fail("%s:inv-init:%s" % (self.tag, name), "variable is unbound before the loop")
             else:
                 isolated(lambda: COMPARE[0]("%s:inv-init:%s" % (self.tag, name), have, want), self.tag)
